@@ -206,6 +206,46 @@ def run_cases(ck: Check, n: int):
                 ck.mismatch("c18-threshold", f"remove_small keeps radii {[d.radius for d in em]}, model keeps indices {kept_model}", case)
 
 
+def refine_filter_cases(ck: Check, n: int):
+    """the size filter must also hold AFTER refinement: wide interfaces + low thresholds make the
+    thresholded cluster larger than the fitted droplet, so a minimal radius can fall in between"""
+    from pde import CartesianGrid
+    from droplets.droplets import DiffuseDroplet
+    from droplets.emulsions import Emulsion
+
+    rng = ck.rng
+    for _ in range(n):
+        dim = rng.choice([1, 2])
+        L = 40 if dim == 1 else 24
+        grid = CartesianGrid([[0, L]] * dim, [L] * dim, periodic=rng.random() < 0.5)
+        k = rng.choice([1, 2]) if dim == 1 else 1
+        drops = [DiffuseDroplet(np.array([L * (j + 0.5) / k + rng.uniform(-1, 1)] + [L / 2] * (dim - 1)), rng.uniform(3.5, 5.5), rng.uniform(1.5, 3.0)) for j in range(k)]
+        field = Emulsion(drops).get_phasefield(grid)
+        thr = rng.choice([0.1, 0.15, 0.5, 0.85])
+        cands = locate(field, threshold=thr, minimal_radius=-np.inf)
+        refined = locate(field, threshold=thr, minimal_radius=-np.inf, refine=True)
+        if cands[0] != "ok" or refined[0] != "ok" or len(cands[1]) != len(refined[1]) or not len(cands[1]):
+            continue
+        pairs = list(zip(cands[1], refined[1]))
+        lo = min(min(c.radius, r.radius) for c, r in pairs)
+        hi = max(max(c.radius, r.radius) for c, r in pairs)
+        between = [(c.radius + r.radius) / 2 for c, r in pairs]
+        for mr in between + [lo - 0.1, hi + 0.1, 0.0]:
+            got = locate(field, threshold=thr, minimal_radius=mr, refine=True)
+            case = {"kind": "refine-filter", "dim": dim, "threshold": thr, "minimal_radius": mr, "droplets": [d.data.tolist() for d in drops],
+                    "candidate_radii": [c.radius for c, _ in pairs], "refined_radii": [r.radius for _, r in pairs]}
+            ck.case(("refine-filter", dim, thr, mr, tuple(d.data.tobytes() for d in drops)))
+            if any(min(c.radius, r.radius) < mr < max(c.radius, r.radius) for c, r in pairs):
+                ck.count("minimal_radius_between_candidate_and_refined")
+            if got[0] != "ok":
+                continue
+            if any(d.radius <= mr for d in got[1]):
+                ck.fail(f"refine=True, minimal_radius={mr}: a returned droplet has radius {[d.radius for d in got[1]]}", {"check": "removeSmall_eq_filter", "refine": True}, case)
+            want = [emulsion_key([r])[0] for c, r in pairs if c.radius > mr and r.radius > mr]
+            if emulsion_key(got[1]) != want:
+                ck.fail(f"refine=True, minimal_radius={mr}: result is not the refined droplets passing the filter before and after refinement", {"check": "removeSmall_eq_filter", "refine": True}, case)
+
+
 def replay(case: dict):
     ck = Check("C18", "quick", 0)
     run_cases(ck, 300)
@@ -221,5 +261,6 @@ def run(ck: Check):
                       "calls on which the real code raises are skipped here (C09 decides them)"]
     ck.lean = lean_stage("C18", leanchecker=not ck.quick)
     run_cases(ck, ck.budget(600, 6000))
+    refine_filter_cases(ck, ck.budget(12, 200))
     if (not ck.lean.ok or ck.mismatches) and not ck.failures:
         run_cases(ck, 2000)
